@@ -323,7 +323,7 @@ fn gen_unary(
     Ok(res)
 }
 
-fn access(fun: &str, left: &AST, right: &AST) -> Expected {
+pub fn access(fun: &str, left: &AST, right: &AST) -> Expected {
     let name = StringName::from(fun);
     Expected::new(
         left.pos,
